@@ -65,14 +65,17 @@ def build_object(A, rng, inp, fam, sol, float_inf=True, colours=True):
     if fam == "dtl":
         rin = A.model.ReconciliationInput(otree, lca, leaf_map, costs)
     else:
-        leaf_syn = {onodes[u - 1]: [f"g{f}" for f in inp["syn"][u - 1]] for u in proj.leaves_of(inp["ot"])}
+        # syntenies are any sequences: lists or tuples (sets for unordered leaves)
+        box = rng.choice([list, list, tuple]) if fam == "ord" else rng.choice([list, tuple, set])
+        leaf_syn = {onodes[u - 1]: box(f"g{f}" for f in inp["syn"][u - 1]) for u in proj.leaves_of(inp["ot"])}
         rin = A.model.SuperReconciliationInput(otree, lca, leaf_map, costs, leaf_syn)
     if sol is None:
         return rin
     mapping = {onodes[u]: snodes[sol["m"][u] - 1] for u in range(len(sol["m"]))}
     if fam == "dtl":
         return A.model.ReconciliationOutput(rin, mapping)
-    syn = {onodes[u]: [f"g{f}" for f in sol["lab"][u]] for u in range(len(sol["m"]))}
+    box2 = rng.choice([list, list, tuple]) if fam == "ord" else rng.choice([list, tuple, set])
+    syn = {onodes[u]: box2(f"g{f}" for f in sol["lab"][u]) for u in range(len(sol["m"]))}
     return A.model.SuperReconciliationOutput(rin, mapping, syn, fam == "ord")
 
 
